@@ -696,6 +696,10 @@ pub struct StructCase {
     /// subkey carried as: 0 public-subkey packet in a public cert, 1 secret-subkey in a secret
     /// cert, 2 public-subkey packet in a secret cert
     pub carrier: u8,
+    /// 0: the one binding signature of the shape; 1: that binding followed by a legal one (the
+    /// offending signature is not the last); 2: a legal one followed by that binding
+    #[serde(default)]
+    pub second: u8,
 }
 
 fn run_struct(c: &StructCase) -> Outcome {
@@ -745,8 +749,8 @@ fn run_struct(c: &StructCase) -> Outcome {
         ];
         Ok(cfg)
     };
-    let binding = (|| -> pgp::errors::Result<pgp::packet::Signature> {
-        let mut cfg = mk_cfg(SignatureType::SubkeyBinding, primary, 1)?;
+    let make_binding = |shape: u8| -> pgp::errors::Result<pgp::packet::Signature> {
+        let mut cfg = mk_cfg(SignatureType::SubkeyBinding, primary, 1 + shape as u64)?;
         let mut flags = KeyFlags::default();
         if signing_sub {
             flags.set_sign(true);
@@ -754,10 +758,10 @@ fn run_struct(c: &StructCase) -> Outcome {
             flags.set_encrypt_comms(true);
         }
         cfg.hashed_subpackets.push(Subpacket::regular(SubpacketData::KeyFlags(flags))?);
-        match c.shape {
+        match shape {
             3 | 4 => {
                 // embedded back signature: by the subkey itself (4) or by an unrelated key (3)
-                let back_signer: &pgp::packet::SecretKey = if c.shape == 4 { &donor.primary_key } else { &common::cert(pkind, 6).primary_key.clone() };
+                let back_signer: &pgp::packet::SecretKey = if shape == 4 { &donor.primary_key } else { &common::cert(pkind, 6).primary_key.clone() };
                 let bcfg = mk_cfg(SignatureType::KeyBinding, back_signer, 2)?;
                 let back = bcfg.sign_primary_key_binding(back_signer, back_signer.public_key(), &pw, primary.public_key())?;
                 cfg.hashed_subpackets.push(Subpacket::regular(SubpacketData::EmbeddedSignature(Box::new(back)))?);
@@ -765,7 +769,8 @@ fn run_struct(c: &StructCase) -> Outcome {
             _ => {}
         }
         cfg.sign_subkey_binding(primary, primary.public_key(), &pw, &sub_pub)
-    })();
+    };
+    let binding = make_binding(c.shape);
     let binding = match binding {
         Ok(b) => b,
         Err(e) => {
@@ -792,7 +797,21 @@ fn run_struct(c: &StructCase) -> Outcome {
     } else {
         w(sub_pub.to_writer_with_header(&mut stream));
     }
-    w(binding.to_writer_with_header(&mut stream));
+    // a second binding signature over the same subkey (only for the signing-subkey shapes, where
+    // a legal one exists)
+    let legal_binding = if c.second != 0 && matches!(c.shape, 2 | 3) { make_binding(4).ok() } else { None };
+    match (&legal_binding, c.second) {
+        (Some(l), 2) => {
+            w(l.to_writer_with_header(&mut stream));
+            w(binding.to_writer_with_header(&mut stream));
+        }
+        (Some(l), _) => {
+            w(binding.to_writer_with_header(&mut stream));
+            w(l.to_writer_with_header(&mut stream));
+        }
+        (None, 0) => w(binding.to_writer_with_header(&mut stream)),
+        (None, _) => return Outcome::trivial("n/a"),
+    }
     let legal = c.shape == 4;
     // judge through every applicable path
     let mut verdicts: Vec<(&str, Result<(), String>)> = Vec::new();
@@ -1014,14 +1033,16 @@ pub fn check(ctx: &Ctx) {
     for shape in 0..5u8 {
         for v6 in [false, true] {
             for carrier in 0..3u8 {
-                stc.push(StructCase { shape, v6, carrier });
+                for second in 0..3u8 {
+                    stc.push(StructCase { shape, v6, carrier, second });
+                }
             }
         }
     }
     ctx.run_space(
         "certificate_structure_paths_agree",
         true,
-        "certificates assembled from real packets: v6 primary + v4 subkey, v4 primary + v6 subkey, signing subkey without embedded back signature, with a back signature by an unrelated key, and the legal control; subkey carried as public-subkey in a public certificate / secret-subkey in a secret certificate / public-subkey inside a secret certificate; judged by SignedPublicKey::from_bytes, from_armor, SignedSecretKey::from_bytes, and to_public_key() re-import: illegal shapes rejected on every path, the control accepted on every path",
+        "certificates assembled from real packets: v6 primary + v4 subkey, v4 primary + v6 subkey, signing subkey without embedded back signature, with a back signature by an unrelated key (each also next to a legal binding signature over the same subkey, before and after it), and the legal control; subkey carried as public-subkey in a public certificate / secret-subkey in a secret certificate / public-subkey inside a secret certificate; judged by SignedPublicKey::from_bytes, from_armor, SignedSecretKey::from_bytes, and to_public_key() re-import: illegal shapes rejected on every path, the control accepted on every path",
         stc.into_par_iter(),
         run_struct,
     );
